@@ -20,7 +20,7 @@ pub enum LRParseTree<'t> {
 impl LRParseTree<'_> {
     pub(crate) fn is_skip_token(&self) -> bool {
         match self {
-            LRParseTree::Terminal(token) => token.is_skip_token(),
+            LRParseTree::Terminal(token) => token.is_effectively_skip_token(),
             LRParseTree::NonTerminal(_, _) => false,
         }
     }
